@@ -473,6 +473,11 @@ func (c *Ctx) loopEnv(fr *Frame, h *ssa.BasicBlock, st *State) *Env {
 		}
 	}
 	e.at = fmt.Sprintf("%s loop %d", funcKey(fr.fn), fr.loopOrd[h])
+	if li := c.loopInfos[loopKey(c, fr, h)]; li != nil {
+		e.loopPre = li.pre
+	} else {
+		e.loopPre = st
+	}
 	return e
 }
 
@@ -536,11 +541,12 @@ func (c *Ctx) enterLoop(fr *Frame, h *ssa.BasicBlock, ord int, st *State, reach 
 		}
 	}
 	// 3. assume the invariant for an arbitrary iteration
+	c.loopInfos[loopKey(c, fr, h)] = &loopInfo{modlocs: locs, pre: pre}
 	env2 := c.loopEnv(fr, h, cur)
 	for _, cl := range invs {
 		c.sc.assume(imp(reach, c.evalClause(env2, cl)))
 	}
-	c.loopInfos[loopKey(c, fr, h)] = &loopInfo{modlocs: locs, head: cur.clone(), pre: pre}
+	c.loopInfos[loopKey(c, fr, h)].head = cur.clone()
 	return cur
 }
 
